@@ -12,7 +12,8 @@ RULE = ("case = (chain circuit: 3 combinational stages spread over 1..4 fragment
         "edge, any subset of the six parts replaced by user processes written exactly as in docs/simulator.rst; clocks added with "
         "seeded even integer-femtosecond periods (2 fs .. 1 us) and phases, equal phases/periods to force ties; 1..4 testbenches "
         "(optionally identical twins) with scripts over set / get / tick / tick.sample / tick.repeat / delay (incl. 0 and "
-        "deadlines equal to clock edges) / edge / changed on registers). Every case is executed under K process orders "
+        "deadlines equal to clock edges) / edge / changed on registers / trigger combinations racing an edge or a change of a "
+        "register against a delay that often expires exactly at a clock edge). Every case is executed under K process orders "
         "(insertion, reverse, seeded x2, shipped hash order) over all four engine sets and compared with an integer-arithmetic "
         "discrete-event reference. Non-trivial = >= 1 tick wake-up, >= 1 set, >= 2 orders executed with permutation decisions; "
         "distinct = distinct SHA-256 of the reference log.")
@@ -24,6 +25,9 @@ ASSUMPTIONS = [
     "testbenches have started (Simulator.advance: all events of a time point take effect before the testbenches run again).",
     "changed()/edge() are awaited on registers only (glitch wake-ups on combinational signals are documented as order-dependent).",
     "No resets are applied.",
+    "Trigger combinations (edge|delay, changed|delay): the wake-up instant is the earlier of the two; the result reports which "
+    "fired; when both fall into the same instant the first element of the result (edge flag / sampled value) is not compared "
+    "with the reference, only between process orders.",
 ]
 COMPONENTS = {"real": ["amaranth.sim.Simulator / PySimEngine.step_design / advance", "_PyTimeline", "PyClockProcess",
                        "_PyTriggerState (tick, sample, delay, edge, changed, repeat)", "AsyncProcess (testbenches and processes)",
@@ -31,7 +35,8 @@ COMPONENTS = {"real": ["amaranth.sim.Simulator / PySimEngine.step_design / advan
               "stub": ["PermSet scheduler seam over _processes, _active_triggers, pending, nearest_wakers",
                        "integer-arithmetic reference of circuit + testbench scripts"]}
 EXPECTED_PROBES = ("sched", "tie", "zero_delay", "replaced_comb", "replaced_sync", "twins_same_instant", "coincident_domains",
-                   "set_then_get", "tick_sample", "edge_wait", "changed_wait", "woken_by_testbench")
+                   "set_then_get", "tick_sample", "edge_wait", "changed_wait", "woken_by_testbench", "race_wait", "race_tie",
+                   "race_won_by_signal", "race_won_by_delay")
 HANG_IS_VIOLATION = True
 CHUNK = 4
 PARTS = ["s1", "s2", "s3", "r1", "r2", "out"]
@@ -127,7 +132,7 @@ def gen_case(seed, tier):
         ops = []
         for _ in range(wl.randint(*nops)):
             k = wl.choice(["tick", "tick", "sample", "repeat", "delay", "delay_edge", "delay0", "set", "set", "get", "get",
-                           "edge", "changed", "changed_in"])
+                           "edge", "changed", "changed_in", "race", "race"])
             if k == "tick":
                 ops.append({"k": "tick", "dom": wl.choice(doms)})
             elif k == "sample":
@@ -149,6 +154,16 @@ def gen_case(seed, tier):
                 ops.append({"k": "changed_in", "sig": wl.choice(["x", "x", "en", "wen2"])})     # woken by another testbench's set()
             elif k == "edge":
                 ops.append({"k": "edge", "sig": wl.choice(["r1", "r2"]), "bit": wl.randrange(w), "pol": wl.randint(0, 1)})
+            elif k == "race":
+                # a trigger combination: (edge of a register bit | change of a register) raced against a delay that often expires
+                # exactly at a clock edge; the result says which of the two fired
+                fs = wl.choice([1, 2, p1 // 2, p1, p2, 2 * p1 + 1, wl.randint(1, 2 * max(p1, p2))])
+                if wl.random() < 0.4:
+                    fs = {"dom": wl.choice(doms), "n": wl.randint(1, 3)}     # up to the n-th next active edge of a domain
+                if wl.random() < 0.5:
+                    ops.append({"k": "race", "sig": wl.choice(["r1", "r2"]), "bit": wl.randrange(w), "pol": wl.randint(0, 1), "fs": fs})
+                else:
+                    ops.append({"k": "race_changed", "sig": wl.choice(["r1", "r2"]), "fs": fs})
             else:
                 ops.append({"k": "changed", "sig": wl.choice(["r1", "r2"])})
         return ops
@@ -231,6 +246,15 @@ class Reference:
         k = (t - first) // p + 1
         return first + k * p
 
+    def race_fs(self, op):
+        fs = op["fs"]
+        if isinstance(fs, dict):
+            t = self.now
+            for _ in range(fs["n"]):
+                t = self.active_edges_after(fs["dom"], t)
+            return t - self.now
+        return fs
+
     def is_active_edge(self, dom, t):
         d = self.doms[dom]
         p = d["period"]
@@ -298,6 +322,9 @@ class Reference:
                         self.stats["changed_wait"] += 1
                     elif k == "changed_in":
                         wait[i] = {"k": k, "sig": op["sig"]}
+                    elif k in ("race", "race_changed"):
+                        wait[i] = dict(op, at=self.now + self.race_fs(op), armed_round=self.round)
+                        self.stats["race_wait"] = self.stats.get("race_wait", 0) + 1
                     return
             done[i] = True
 
@@ -334,7 +361,7 @@ class Reference:
                 if done[i] or wait[i] is None:
                     continue
                 wv = wait[i]
-                if wv["k"] == "delay":
+                if wv["k"] in ("delay", "race", "race_changed"):
                     cands.append(wv["at"])
             # edge instants up to `edge_base` have been processed (-1 at the start: a clock with phase 0 has its first edge at
             # time 0, *after* the testbenches started)
@@ -409,6 +436,27 @@ class Reference:
                 elif k == "changed":
                     if changed[wv["sig"]]:
                         woken.append((i, [new[wv["sig"]]]))
+                elif k in ("race", "race_changed"):
+                    hit_d = wv["at"] == T and wv["armed_round"] < self.round
+                    if k == "race":
+                        ob, nb = (old[wv["sig"]] >> wv["bit"]) & 1, (new[wv["sig"]] >> wv["bit"]) & 1
+                        hit_e = ob != nb and nb == wv["pol"]
+                        first = hit_e
+                    else:
+                        hit_e = changed[wv["sig"]]
+                        first = new[wv["sig"]]
+                    if hit_e or hit_d:
+                        # if both fall into the same instant the wake-up time is defined, but what the first element reports
+                        # (the edge flag / the sampled value) is not: "*" = not compared with the reference (it must still be
+                        # the same under every process order)
+                        if hit_e and hit_d:
+                            first = "*"
+                            self.stats["race_tie"] = self.stats.get("race_tie", 0) + 1
+                        elif hit_e:
+                            self.stats["race_won_by_signal"] = self.stats.get("race_won_by_signal", 0) + 1
+                        else:
+                            self.stats["race_won_by_delay"] = self.stats.get("race_won_by_delay", 0) + 1
+                        woken.append((i, [first, hit_d]))
             if len(woken) >= 2:
                 self.stats["twins_same_instant"] += 1
             for i, val in woken:
@@ -597,6 +645,13 @@ def simulate(case, order):
                         v = conv(await ctx.changed({"x": s.x, "en": s.en, "wen2": s.wen2}[op["sig"]]))
                     elif k == "edge":
                         v = conv(await ctx.edge(regs[op["sig"]][op["bit"]], op["pol"]))
+                    elif k in ("race", "race_changed"):
+                        ref.now = ctx.elapsed_time().femtoseconds
+                        fs = ref.race_fs(op)
+                        if k == "race":
+                            v = conv(await ctx.edge(regs[op["sig"]][op["bit"]], op["pol"]).delay(Period(fs=fs)))
+                        else:
+                            v = conv(await ctx.changed(regs[op["sig"]]).delay(Period(fs=fs)))
                     else:
                         v = conv(await ctx.changed(regs[op["sig"]]))
                     log.append([i, oi, ctx.elapsed_time().femtoseconds, "wake", v, snapshot(ctx)])
@@ -796,6 +851,8 @@ def run_case(case):
         F["zero_delay"] += rs["zero_delay"]
         for k in ("twins_same_instant", "coincident_domains", "set_then_get", "tick_sample", "edge_wait", "changed_wait"):
             P[k] += rs[k]
+        for k in ("race_wait", "race_tie", "race_won_by_signal", "race_won_by_delay"):
+            P[k] = P.get(k, 0) + rs.get(k, 0)
         P["woken_by_testbench"] = P.get("woken_by_testbench", 0) + rs.get("woken_by_testbench", 0)
         P["replaced_comb"] += sum(1 for p in config["replace"] if p in ("s1", "s2", "s3", "out"))
         P["replaced_sync"] += sum(1 for p in config["replace"] if p in ("r1", "r2"))
@@ -809,6 +866,10 @@ def run_case(case):
             if order[0] != "hash":
                 total_dec += dec
             logs.append(log)
+            # positions the reference leaves open ("*") are not compared with it
+            log = [(g[:4] + [[("*" if ev == "*" else gv) for gv, ev in zip(g[4], e[4])]] + g[5:])
+                   if (isinstance(e[4], list) and "*" in e[4] and isinstance(g[4], list) and len(g[4]) == len(e[4])) else g
+                   for g, e in zip(log, expected)] + log[len(expected):]
             if log != expected:
                 n = next((j for j, (a, b) in enumerate(zip(log, expected)) if a != b), min(len(log), len(expected)))
                 got = log[n] if n < len(log) else None
